@@ -7,15 +7,25 @@ use serde_json::{json, Value};
 use std::io::Write;
 use std::process::{Command, Stdio};
 
+/// U+E000 in an input text stands for a run of `pad` letters (inputs of more than 64 KiB are described, not carried, by the case)
+fn expand(text: String, pad: usize) -> String {
+    if pad == 0 || !text.contains('\u{e000}') {
+        text
+    } else {
+        text.replace('\u{e000}', &"a".repeat(pad))
+    }
+}
+
 pub fn run_case(case: &Value) -> Value {
     let mut obs = case.clone();
+    let pad = case.get("pad").and_then(|x| x.as_u64()).unwrap_or(0) as usize;
     let jp = std::env::var("JP_BIN").unwrap_or_else(|_| "jp".into());
     let dir = std::env::temp_dir().join(format!("verif-cli-{}", std::process::id()));
     let _ = std::fs::create_dir_all(&dir);
     // files of the invocation
     if let Some(files) = case["files"].as_array() {
         for f in files {
-            let _ = std::fs::write(dir.join(uncps(&f["name"])), uncps(&f["content"]));
+            let _ = std::fs::write(dir.join(uncps(&f["name"])), expand(uncps(&f["content"]), pad));
         }
     }
     let argv: Vec<String> = case["argv"].as_array().map(|a| a.iter().map(uncps).collect()).unwrap_or_default();
@@ -25,7 +35,7 @@ pub fn run_case(case: &Value) -> Value {
             Err(e) => return json!({"harness":ascii_cps(&format!("spawn {}: {}", jp, e))}),
         };
         if let Some(mut si) = child.stdin.take() {
-            let _ = si.write_all(uncps(&case["stdin"]).as_bytes());
+            let _ = si.write_all(expand(uncps(&case["stdin"]), pad).as_bytes());
         }
         let o = child.wait_with_output();
         let o = match o {
@@ -37,7 +47,7 @@ pub fn run_case(case: &Value) -> Value {
         let code = o.status.code().unwrap_or(-1);
         // the library in-process on the same expression text and input text
         let expr_text = uncps(&case["expr"]);
-        let input_text = uncps(&case["input"]);
+        let input_text = expand(uncps(&case["input"]), pad);
         let lib = match jmespath::compile(&expr_text) {
             Err(_) => json!({"stage":"compile","pretty":[],"is_string":false,"raw":[]}),
             Ok(e) => match jmespath::Variable::from_json(&input_text) {
